@@ -99,6 +99,23 @@ class Exec:
             self.tg.start_soon(run_stream if a == "Subscribe" else run_wait)
             await vclock.quiescent()
             return None
+        if a == "BadSubscribe":
+            from asphalt.core import UnboundSignal
+            sigs = [self.chan(obs["ch"]), getattr(type(self.inst[obs["ch"][0]]), "a")]       # the second one is read on the class: unbound
+            res = "entered"
+            try:
+                with anyio.move_on_after(0.01):
+                    if obs["kind"] == "wait":
+                        await wait_event(sigs)
+                    else:
+                        async with stream_events(sigs):
+                            pass
+            except UnboundSignal:
+                res = "UnboundSignal"
+            except Exception as e:  # noqa: BLE001
+                res = "raised:" + type(e).__name__
+            await vclock.quiescent()
+            return res
         if a == "Dispatch":
             ch = obs["ch"]
             cls = self.EvA if ch[1] == "a" else self.EvB
@@ -137,6 +154,8 @@ class Exec:
         changed = self.identity_broken()
         if changed:
             return "bound-signal-identity", f"{changed} always the same bound signal", f"{changed} is another object after {a}", {"C11"}
+        if a == "BadSubscribe" and got != obs["r"]:
+            return "subscribe-result", obs["r"], got, {"C11"}
         if a == "Dispatch":
             exp = (obs["r"], len(obs["warns"]))
             if got[0] != exp[0]:
@@ -175,7 +194,7 @@ def make(tg, variant):
 def identity_cases():
     """C11's static rows: identity of bound signals, topic, event class, UnboundSignal, weak binding; each in several access orders"""
     import anyio
-    from asphalt.core import UnboundSignal, stream_events, wait_event
+    from asphalt.core import Signal, UnboundSignal, stream_events, wait_event
     cases = []
     orders = [("1a", "1b", "2a", "2b"), ("1b", "1a", "2b", "2a"), ("2a", "1a", "1b", "2b"), ("2b", "2a", "1b", "1a")]
     for oi, order in enumerate(orders):
@@ -300,6 +319,71 @@ def identity_cases():
             cyc.append({"variant": label, "dead": first is during and during is after and after is again})
     vclock.run(cmain, backend="asyncio", seed=0)
     cases.append({"id": "cycle", "kind": "weak", "rows": cyc})
+
+    # a new instance that happens to be allocated where a dead one lived must not inherit the dead one's bound signal
+    reuse = []
+    EvA_, EvB_, Src_, Sub_ = _classes()
+    for label, cls in (("own", Src_), ("inherited", Sub_)):
+        good, hit = True, False
+        for _ in range(300):
+            x = cls()
+            old = x.a
+            addr = id(x)
+            del x
+            y = cls()
+            if id(y) == addr:
+                hit = True
+                new = y.a
+                ev = EvA_(1)
+                try:
+                    new.dispatch(ev)
+                    stamped = ev.source is y
+                except Exception:  # noqa: BLE001
+                    stamped = False
+                good = good and new is not old and stamped and y.a is new
+            keep = y      # noqa: F841 - the next round allocates elsewhere first
+            del old
+            if hit and not good:
+                break
+        reuse.append({"variant": label, "dead": good, "exercised": hit})
+    cases.append({"id": "reuse", "kind": "weak", "rows": reuse})
+
+    # name-mangled signals: _Base__changed and _Sub__changed are different attributes of one instance
+    priv = []
+
+    class Base:
+        __changed = Signal(EvA_)
+
+        def base_sig(self):
+            return self.__changed
+
+    class Sub2(Base):
+        __changed = Signal(EvB_)
+
+        def sub_sig(self):
+            return self.__changed
+
+    for label, first in (("base-first", "base_sig"), ("sub-first", "sub_sig")):
+        s = Sub2()
+        getattr(s, first)()
+        a, b = s.base_sig(), s.sub_sig()
+        good = a is not b and a is s.base_sig() and b is s.sub_sig()
+        for sig, cls, other, attr in ((a, EvA_, EvB_, "_Base__changed"), (b, EvB_, EvA_, "_Sub2__changed")):
+            ev = cls(1)
+            try:
+                sig.dispatch(ev)
+                good = good and ev.source is s and getattr(s, ev.topic, None) is sig and ev.topic == attr
+            except Exception:  # noqa: BLE001
+                good = False
+            try:
+                sig.dispatch(other(1))
+                good = False
+            except TypeError:
+                pass
+            except Exception:  # noqa: BLE001
+                good = False
+        priv.append({"variant": label, "dead": good})
+    cases.append({"id": "private", "kind": "weak", "rows": priv})
     return cases
 
 
